@@ -1,45 +1,337 @@
+//! Runs the PRODUCTION Hydro code generator (`generate_embedded` = compile_internal +
+//! partition_graph + as_code) on every program of the C30 / C35 / C41 families.
+//!
+//! Every program is generated under `catch_unwind`; a failure is recorded in the generated table
+//! `GEN_FAILURES` (reported by the C41 check as a violation) instead of aborting the build, so
+//! one failing program cannot hide the others. Successful programs are written to
+//! `$OUT_DIR/<id>.rs` and included by the binary (so the generated Rust must compile).
 use std::fmt::Write as _;
 use std::panic::{AssertUnwindSafe, catch_unwind};
+use std::sync::Mutex;
 
 use hydro_lang::compile::builder::FlowBuilder;
-use hydro_lang::location::Location;
-use hydro_lang::prelude::nondet;
+use hydro_lang::location::{Location, MemberId};
+use hydro_lang::prelude::*;
+use vf_emb2_progs::net::{self, E3, R, S, TNested, TOpt, TRes};
+use vf_emb2_progs::tickops::{self, OpFn};
+use vf_emb2_progs::top::{self, LA, LB, UFn};
+
+const CRATE: &str = "vf_emb2_progs";
+
+static LAST_PANIC: Mutex<String> = Mutex::new(String::new());
+
+struct Gen {
+    out_dir: String,
+    mods: String,
+    progs: String,
+    nets: String,
+    failures: String,
+    have: String,
+    n_ok: usize,
+    n_fail: usize,
+}
+
+impl Gen {
+    /// Run one generator closure under catch_unwind; on success write the file + `mod`.
+    fn one(&mut self, id: &str, family: &str, desc: &str, f: impl FnOnce() -> syn::File) -> bool {
+        LAST_PANIC.lock().unwrap().clear();
+        let r = catch_unwind(AssertUnwindSafe(f));
+        match r {
+            Ok(code) => {
+                let txt = prettyplease::unparse(&code);
+                std::fs::write(format!("{}/{id}.rs", self.out_dir), txt).unwrap();
+                writeln!(
+                    self.mods,
+                    "pub mod {id} {{ include!(concat!(env!(\"OUT_DIR\"), \"/{id}.rs\")); }}"
+                )
+                .unwrap();
+                writeln!(self.have, "#[allow(unused_macros)] macro_rules! have_{id} {{ ($($t:tt)*) => {{ $($t)* }} }}").unwrap();
+                self.n_ok += 1;
+                true
+            }
+            Err(e) => {
+                let mut msg = LAST_PANIC.lock().unwrap().clone();
+                if msg.is_empty() {
+                    msg = if let Some(s) = e.downcast_ref::<&str>() {
+                        s.to_string()
+                    } else if let Some(s) = e.downcast_ref::<String>() {
+                        s.clone()
+                    } else {
+                        "<non-string panic>".into()
+                    };
+                }
+                writeln!(
+                    self.failures,
+                    "    GenFailure {{ id: {id:?}, family: {family:?}, desc: {desc:?}, message: {msg:?} }},"
+                )
+                .unwrap();
+                writeln!(self.have, "#[allow(unused_macros)] macro_rules! have_{id} {{ ($($t:tt)*) => {{ }} }}").unwrap();
+                self.n_fail += 1;
+                false
+            }
+        }
+    }
+}
+
+fn ops_list(l: &[&str]) -> String {
+    let v: Vec<String> = l.iter().map(|s| format!("{s:?}")).collect();
+    format!("&[{}]", v.join(", "))
+}
 
 fn main() {
     println!("cargo::rerun-if-changed=build.rs");
     let out_dir = std::env::var("OUT_DIR").unwrap();
-    std::panic::set_hook(Box::new(|_| {}));
+    std::panic::set_hook(Box::new(|info| {
+        let msg = if let Some(s) = info.payload().downcast_ref::<&str>() {
+            s.to_string()
+        } else if let Some(s) = info.payload().downcast_ref::<String>() {
+            s.clone()
+        } else {
+            "<non-string panic>".to_string()
+        };
+        let loc = info
+            .location()
+            .map(|l| format!(" @ {}:{}", l.file(), l.line()))
+            .unwrap_or_default();
+        let mut g = LAST_PANIC.lock().unwrap();
+        if g.is_empty() {
+            *g = format!("{msg}{loc}");
+        }
+    }));
 
-    let ops = vf_emb2_progs::tickops::ops();
-    let mut table = String::new();
-    let mut mods = String::new();
-    let mut n = 0;
-    for (n1, f1) in &ops {
-        for (n2, f2) in &ops {
-            let id = format!("p{:04}", n);
-            n += 1;
-            let r = catch_unwind(AssertUnwindSafe(|| {
-                let mut flow = FlowBuilder::new();
-                let p = flow.process::<()>();
-                let tick = p.tick();
-                let a = p.embedded_input::<i32>("a");
-                let b = a.batch(&tick, nondet!(/** the driver chooses the batches */));
-                let out = f2(f1(b));
-                out.all_ticks().embedded_output("out");
-                flow.with_process(&p, "prog").generate_embedded("vf_emb2_progs")
-            }));
-            match r {
-                Ok(code) => {
-                    std::fs::write(format!("{out_dir}/{id}.rs"), prettyplease::unparse(&code)).unwrap();
-                    writeln!(mods, "pub mod {id} {{ include!(concat!(env!(\"OUT_DIR\"), \"/{id}.rs\")); }}").unwrap();
-                    writeln!(table, "(\"{id}\", \"{n1}\", \"{n2}\"),").unwrap();
-                }
-                Err(_) => {
-                    writeln!(table, "// FAILED {id} {n1} {n2}").unwrap();
-                }
+    let mut g = Gen {
+        out_dir,
+        mods: String::new(),
+        progs: String::new(),
+        nets: String::new(),
+        failures: String::new(),
+        have: String::new(),
+        n_ok: 0,
+        n_fail: 0,
+    };
+
+    // ------------------------------------------------------------------ C30: tick family
+    let ops = tickops::ops();
+    let find = |n: &str| -> OpFn { ops.iter().find(|(m, _)| *m == n).unwrap().1 };
+    let gen_tick = |fs: Vec<OpFn>| -> syn::File {
+        let mut flow = FlowBuilder::new();
+        let p = flow.process::<()>();
+        let tick = p.tick();
+        let a = p.embedded_input::<i32>("a");
+        let mut cur = a.batch(&tick, nondet!(/** the driver chooses the batches */));
+        for f in fs {
+            cur = f(cur);
+        }
+        cur.all_ticks().embedded_output("out");
+        flow.with_process(&p, "prog").generate_embedded(CRATE)
+    };
+    for (name, f) in &ops {
+        let id = format!("t1_{name}");
+        let f = *f;
+        if g.one(&id, "tick1", name, || gen_tick(vec![f])) {
+            writeln!(g.progs, "    ProgInfo {{ id: {id:?}, family: \"tick1\", ops: {}, run: Runner::A1(|b| run_a1!({id}, b)) }},", ops_list(&[name])).unwrap();
+        }
+    }
+    let core = tickops::core_ops();
+    for n1 in &core {
+        for n2 in core.iter().chain(["join_m"].iter()) {
+            let id = format!("t2_{n1}__{n2}");
+            let (f1, f2) = (find(n1), find(n2));
+            if g.one(&id, "tick2", &format!("{n2}({n1}(batch))"), || gen_tick(vec![f1, f2])) {
+                writeln!(g.progs, "    ProgInfo {{ id: {id:?}, family: \"tick2\", ops: {}, run: Runner::A1(|b| run_a1!({id}, b)) }},", ops_list(&[n1, n2])).unwrap();
             }
         }
     }
-    std::fs::write(format!("{out_dir}/mods.rs"), mods).unwrap();
-    std::fs::write(format!("{out_dir}/table.rs"), format!("pub static T: &[(&str,&str,&str)] = &[\n{table}];\n")).unwrap();
+    for (name, f) in tickops::ops2() {
+        let id = format!("b2_{name}");
+        let ok = g.one(&id, "tick_two_inputs", name, || {
+            let mut flow = FlowBuilder::new();
+            let p = flow.process::<()>();
+            let tick = p.tick();
+            let a = p
+                .embedded_input::<i32>("a")
+                .batch(&tick, nondet!(/** the driver chooses the batches */));
+            let b = p
+                .embedded_input::<i32>("b")
+                .batch(&tick, nondet!(/** the driver chooses the batches */));
+            f(a, b).all_ticks().embedded_output("out");
+            flow.with_process(&p, "prog").generate_embedded(CRATE)
+        });
+        if ok {
+            writeln!(g.progs, "    ProgInfo {{ id: {id:?}, family: \"tick_two_inputs\", ops: {}, run: Runner::A2(|b| run_a2!({id}, b)) }},", ops_list(&[name])).unwrap();
+        }
+    }
+
+    // ------------------------------------------------------------------ C41: top-level family
+    let uops = top::uops();
+    let ufind = |n: &str| -> UFn { uops.iter().find(|(m, _)| *m == n).unwrap().1 };
+    let gen_top = |fs: Vec<UFn>| -> syn::File {
+        let mut flow = FlowBuilder::new();
+        let p = flow.process::<()>();
+        let mut cur = p.embedded_input::<i32>("a");
+        for f in fs {
+            cur = f(cur);
+        }
+        cur.embedded_output("out");
+        flow.with_process(&p, "prog").generate_embedded(CRATE)
+    };
+    for (name, f) in &uops {
+        let id = format!("u1_{name}");
+        let f = *f;
+        if g.one(&id, "top1", name, || gen_top(vec![f])) {
+            writeln!(g.progs, "    ProgInfo {{ id: {id:?}, family: \"top1\", ops: {}, run: Runner::A1(|b| run_a1!({id}, b)) }},", ops_list(&[name])).unwrap();
+        }
+    }
+    let ucore = top::core_uops();
+    for n1 in &ucore {
+        for n2 in &ucore {
+            let id = format!("u2_{n1}__{n2}");
+            let (f1, f2) = (ufind(n1), ufind(n2));
+            if g.one(&id, "top2", &format!("{n2}({n1}(input))"), || gen_top(vec![f1, f2])) {
+                writeln!(g.progs, "    ProgInfo {{ id: {id:?}, family: \"top2\", ops: {}, run: Runner::A1(|b| run_a1!({id}, b)) }},", ops_list(&[n1, n2])).unwrap();
+            }
+        }
+    }
+    for (name, f) in top::stressors() {
+        let id = format!("x_{name}");
+        if g.one(&id, "stressor", name, || gen_top(vec![f])) {
+            writeln!(g.progs, "    ProgInfo {{ id: {id:?}, family: \"stressor\", ops: {}, run: Runner::A1(|b| run_a1!({id}, b)) }},", ops_list(&[name])).unwrap();
+        }
+    }
+    // two-location stressors (driven by hand-written glue in src/twoloc.rs, guarded by have_*!)
+    if g.one("y_hop_then_tick", "stressor2", "A -> B then tick on B", || {
+        let mut flow = FlowBuilder::new();
+        let a = flow.process::<LA>();
+        let b = flow.process::<LB>();
+        top::y_hop_then_tick(a.embedded_input::<i32>("a"), &b).embedded_output("out");
+        flow.with_process(&a, "loc_a")
+            .with_process(&b, "loc_b")
+            .generate_embedded(CRATE)
+    }) {
+        writeln!(g.progs, "    ProgInfo {{ id: \"y_hop_then_tick\", family: \"stressor2\", ops: &[\"hop_then_tick\"], run: Runner::A1(crate::twoloc::run_hop_then_tick) }},").unwrap();
+    }
+    if g.one("y_cycle_through_network", "stressor2", "forward_ref completed through A -> B -> A", || {
+        let mut flow = FlowBuilder::new();
+        let a = flow.process::<LA>();
+        let b = flow.process::<LB>();
+        top::y_cycle_through_network(a.embedded_input::<i32>("a"), &b).embedded_output("out");
+        flow.with_process(&a, "loc_a")
+            .with_process(&b, "loc_b")
+            .generate_embedded(CRATE)
+    }) {
+        writeln!(g.progs, "    ProgInfo {{ id: \"y_cycle_through_network\", family: \"stressor2\", ops: &[\"cycle_through_network\"], run: Runner::A1(crate::twoloc::run_cycle_through_network) }},").unwrap();
+    }
+    if g.one("y_shared_send_and_tick", "stressor2", "shared stream: network round trip + local tick", || {
+        let mut flow = FlowBuilder::new();
+        let a = flow.process::<LA>();
+        let b = flow.process::<LB>();
+        top::y_shared_send_and_tick(a.embedded_input::<i32>("a"), &b).embedded_output("out");
+        flow.with_process(&a, "loc_a")
+            .with_process(&b, "loc_b")
+            .generate_embedded(CRATE)
+    }) {
+        writeln!(g.progs, "    ProgInfo {{ id: \"y_shared_send_and_tick\", family: \"stressor2\", ops: &[\"shared_send_and_tick\"], run: Runner::A1(crate::twoloc::run_shared_send_and_tick) }},").unwrap();
+    }
+
+    // ------------------------------------------------------------------ C35: network flows
+    macro_rules! net_flows {
+        ($tyname:literal, $ty:ty, bcast = $bc:expr) => {{
+            let ty_src = stringify!($ty);
+            {
+                let id = format!("n_o2o_{}", $tyname);
+                if g.one(&id, "net", &format!("o2o<{ty_src}>"), || {
+                    let mut flow = FlowBuilder::new();
+                    let s = flow.process::<S>();
+                    let r = flow.process::<R>();
+                    net::o2o::<$ty>(s.embedded_input("a"), &r).embedded_output("out");
+                    flow.with_process(&s, "snd").with_process(&r, "rcv").generate_embedded(CRATE)
+                }) {
+                    writeln!(g.nets, "    NetInfo {{ id: {id:?}, shape: \"o2o\", ty: {:?}, run: |c, st| net_o2o!({id}, {ty_src}, c, st) }},", $tyname).unwrap();
+                }
+            }
+            {
+                let id = format!("n_o2m_{}", $tyname);
+                if g.one(&id, "net", &format!("o2m_demux<{ty_src}>"), || {
+                    let mut flow = FlowBuilder::new();
+                    let s = flow.process::<S>();
+                    let r = flow.cluster::<R>();
+                    net::o2m_demux::<$ty>(s.embedded_input::<(MemberId<R>, $ty)>("a"), &r).embedded_output("out");
+                    flow.with_process(&s, "snd").with_cluster(&r, "rcv").generate_embedded(CRATE)
+                }) {
+                    writeln!(g.nets, "    NetInfo {{ id: {id:?}, shape: \"o2m_demux\", ty: {:?}, run: |c, st| net_o2m!({id}, {ty_src}, c, st) }},", $tyname).unwrap();
+                }
+            }
+            {
+                let id = format!("n_m2o_{}", $tyname);
+                if g.one(&id, "net", &format!("m2o<{ty_src}>"), || {
+                    let mut flow = FlowBuilder::new();
+                    let s = flow.cluster::<S>();
+                    let r = flow.process::<R>();
+                    net::m2o::<$ty>(s.embedded_input("a"), &r).embedded_output("out");
+                    flow.with_cluster(&s, "snd").with_process(&r, "rcv").generate_embedded(CRATE)
+                }) {
+                    writeln!(g.nets, "    NetInfo {{ id: {id:?}, shape: \"m2o\", ty: {:?}, run: |c, st| net_m2o!({id}, {ty_src}, c, st) }},", $tyname).unwrap();
+                }
+            }
+            {
+                let id = format!("n_m2m_{}", $tyname);
+                if g.one(&id, "net", &format!("m2m_demux<{ty_src}>"), || {
+                    let mut flow = FlowBuilder::new();
+                    let s = flow.cluster::<S>();
+                    let r = flow.cluster::<R>();
+                    net::m2m_demux::<$ty>(s.embedded_input::<(MemberId<R>, $ty)>("a"), &r).embedded_output("out");
+                    flow.with_cluster(&s, "snd").with_cluster(&r, "rcv").generate_embedded(CRATE)
+                }) {
+                    writeln!(g.nets, "    NetInfo {{ id: {id:?}, shape: \"m2m_demux\", ty: {:?}, run: |c, st| net_m2m!({id}, {ty_src}, c, st) }},", $tyname).unwrap();
+                }
+            }
+            if $bc {
+                {
+                    let id = format!("n_o2mb_{}", $tyname);
+                    if g.one(&id, "net", &format!("o2m_bcast<{ty_src}>"), || {
+                        let mut flow = FlowBuilder::new();
+                        let s = flow.process::<S>();
+                        let r = flow.cluster::<R>();
+                        net::o2m_bcast::<$ty>(s.embedded_input("a"), &r).embedded_output("out");
+                        flow.with_process(&s, "snd").with_cluster(&r, "rcv").generate_embedded(CRATE)
+                    }) {
+                        writeln!(g.nets, "    NetInfo {{ id: {id:?}, shape: \"o2m_bcast\", ty: {:?}, run: |c, st| net_o2mb!({id}, {ty_src}, c, st) }},", $tyname).unwrap();
+                    }
+                }
+                {
+                    let id = format!("n_m2mb_{}", $tyname);
+                    if g.one(&id, "net", &format!("m2m_bcast<{ty_src}>"), || {
+                        let mut flow = FlowBuilder::new();
+                        let s = flow.cluster::<S>();
+                        let r = flow.cluster::<R>();
+                        net::m2m_bcast::<$ty>(s.embedded_input("a"), &r).embedded_output("out");
+                        flow.with_cluster(&s, "snd").with_cluster(&r, "rcv").generate_embedded(CRATE)
+                    }) {
+                        writeln!(g.nets, "    NetInfo {{ id: {id:?}, shape: \"m2m_bcast\", ty: {:?}, run: |c, st| net_m2mb!({id}, {ty_src}, c, st) }},", $tyname).unwrap();
+                    }
+                }
+            }
+        }};
+    }
+    net_flows!("i64", i64, bcast = true);
+    net_flows!("string", String, bcast = false);
+    net_flows!("opt", TOpt, bcast = false);
+    net_flows!("vecu16", Vec<u16>, bcast = true);
+    net_flows!("e3", E3, bcast = true);
+    net_flows!("nested", TNested, bcast = false);
+    net_flows!("res", TRes, bcast = false);
+
+    // ------------------------------------------------------------------ write tables
+    let out_dir = g.out_dir.clone();
+    std::fs::write(format!("{out_dir}/mods.rs"), &g.mods).unwrap();
+    std::fs::write(format!("{out_dir}/have.rs"), &g.have).unwrap();
+    std::fs::write(
+        format!("{out_dir}/table.rs"),
+        format!(
+            "pub static PROGS: &[ProgInfo] = &[\n{}];\n\npub static NETS: &[NetInfo] = &[\n{}];\n\npub static GEN_FAILURES: &[GenFailure] = &[\n{}];\n\npub const GEN_OK: usize = {};\npub const GEN_FAILED: usize = {};\n",
+            g.progs, g.nets, g.failures, g.n_ok, g.n_fail
+        ),
+    )
+    .unwrap();
+    let _ = std::panic::take_hook();
 }
